@@ -432,6 +432,57 @@ def parse_tu(key):
     return tu
 
 
+def parse_file(path, key="fixture"):
+    """Parse an arbitrary self-contained C file into the same IR (used for the positive controls)."""
+    r = _clang(["-fsyntax-only", "-Wno-everything", "-std=c99", "-Xclang", "-ast-dump=json", path], os.path.dirname(path))
+    if r.returncode != 0:
+        raise AnalysisError("clang failed for %s: %s" % (path, r.stderr.decode()[-400:]))
+    root = json.loads(r.stdout)
+    tu = TU(key, path)
+    cv = _Conv(tu)
+    orig_is_repo = globals()["is_repo_file"]
+    base = os.path.basename(path)
+    for d in root.get("inner", []):
+        loc = d.get("loc") or {}
+        f = loc.get("file", cv.lastfile)
+        if "spellingLoc" in loc or "expansionLoc" in loc:
+            f = (loc.get("expansionLoc") or {}).get("file", cv.lastfile)
+        if f is None or os.path.basename(f) != base:
+            cv.scan(d)
+            continue
+        globals()["is_repo_file"] = lambda cf: True
+        try:
+            n = cv.conv(d)
+        finally:
+            globals()["is_repo_file"] = orig_is_repo
+        if d.get("kind") == "FunctionDecl":
+            body = None
+            params = []
+            for c in n.kids:
+                if c is None:
+                    continue
+                if c.k == "ParmVarDecl":
+                    params.append(c)
+                elif c.k == "CompoundStmt":
+                    body = c
+            if body is not None:
+                fn = Func()
+                fn.name = n.name; fn.file = n.file; fn.node = n; fn.params = params
+                fn.body = body; fn.static = (n.extra == "static"); fn.tu = key
+                fn.ret = (n.ty or "").split("(")[0].strip()
+                tu.funcs[n.name] = fn
+        elif d.get("kind") == "RecordDecl":
+            fields = [(c.name, c.ty, c.dty) for c in n.kids if c is not None and c.k == "FieldDecl"]
+            if fields:
+                tu.structs["id:" + str(n.id)] = fields
+        elif d.get("kind") == "TypedefDecl":
+            for c in d.get("inner", ()):
+                own = c.get("ownedTagDecl") if isinstance(c, dict) else None
+                if own and ("id:" + str(own.get("id"))) in tu.structs:
+                    tu.structs[n.name] = tu.structs["id:" + str(own.get("id"))]
+    return tu
+
+
 def load_tu(key):
     os.makedirs(CACHE, exist_ok=True)
     dg = digest_tu(key)
